@@ -68,9 +68,7 @@ def run(rep, tier):
     rep.rule('R4', 'both listing entry points print the CodeGen object that emitBin would emit, after label resolution', floor=2)
     asked = []
     for fn in ('hexasm::CodeGen::emitProgramBin', 'hexasm::CodeGen::emitBin', 'hexasm::CodeGen::emitDebugInfo'):
-        g = idx.func(fn, required=False)
-        if g is None or g.body is None:
-            continue
+      for g in idx.overloads(fn):
         for c in cast.calls_in(g.body):
             if callee_of(c)[1] in ('tellp', 'seekp', 'tellg', 'seekg'):
                 asked.append('%s in %s at %s' % (callee_of(c)[1], fn.split('::')[-1], pos(c)))
@@ -172,8 +170,19 @@ def run(rep, tier):
             o1 = cast.decl_ref(callee_of(txt[0])[3]) if callee_of(txt[0])[3] is not None else None
             o2 = cast.decl_ref(callee_of(binc[0])[3]) if callee_of(binc[0])[3] is not None else None
             same = o1 is not None and o1 == o2
+            if not same:
+                # two CodeGen objects built from the same directive list are the same layout (the constructor is deterministic: C11)
+                def built_from(call):
+                    ob = callee_of(call)[3]
+                    vid = cast.decl_ref(ob) if ob is not None else None
+                    src = ix.by_id.get(vid) if vid else ob
+                    cons = [x for x in walk(src) if x.get('kind') in ('CXXConstructExpr', 'CXXTemporaryObjectExpr', 'CXXFunctionalCastExpr') and 'CodeGen' in qt(x)] if src is not None else []
+                    ids = sorted({cast.decl_ref(a) for c_ in cons for a in children(c_) if cast.decl_ref(a)})
+                    return ids
+                b1, b2 = built_from(txt[0]), built_from(binc[0])
+                same = bool(b1) and b1 == b2
         rep.add('R4', '%s:%s' % (tu, what), same, pos(g.node) + ' ' + g.qname,
-                'emitProgramText and emitBin are called on the same CodeGen object' if same else
+                'emitProgramText and emitBin are called on the same CodeGen object (or on objects built from the same directive list)' if same else
                 'the listing is not printed from the object that is emitted', nontrivial=False)
 
 
